@@ -7,13 +7,20 @@ package main
 import (
 	"context"
 	"fmt"
+	"sync"
 
 	"github.com/samber/ro"
 )
 
 type attachFn func(ctx context.Context, rec *Recorder) ro.Subscription
 
+// lastAttached is the observable handed to the most recent attach call: it lets other case
+// kinds (random chains, kind=prom) reuse a buildFn as a plain operator (see specOperator).
+var lastAttached any
+var attachMu sync.Mutex
+
 func attach[T any](obs ro.Observable[T]) attachFn {
+	lastAttached = obs
 	return func(ctx context.Context, rec *Recorder) ro.Subscription {
 		return obs.SubscribeWithContext(ctx, observer[T](rec))
 	}
@@ -353,10 +360,10 @@ func init() {
 	}
 }
 
-func init() {
-	for i := range opSpecs {
-		mk := opSpecs[i].mk
-		opSpecs[i].build = func(p []int, variant string, cbs []Cb, src ro.Observable[int]) (attachFn, error) {
+func deriveBuild(specs []OpSpec) {
+	for i := range specs {
+		mk := specs[i].mk
+		specs[i].build = func(p []int, variant string, cbs []Cb, src ro.Observable[int]) (attachFn, error) {
 			ap, err := mk(p, variant, cbs)
 			if err != nil {
 				return nil, err
@@ -366,10 +373,47 @@ func init() {
 	}
 }
 
+func init() {
+	opSpecs = append(opSpecs, moreOpSpecs()...) // more.go: the operators of lean/RoModel/Ops/More.lean
+	extraOpSpecs = append(extraOpSpecs, moreExtraOpSpecs()...)
+	deriveBuild(opSpecs)
+	deriveBuild(extraOpSpecs)
+}
+
+// extraOpSpecs: operators that can be run by name (kind=op replay, the `opsmore` generator of more.go)
+// but are NOT enumerated by the generators that walk opSpecs (ops, chains, reuse, cancel): operators whose
+// documented behaviour is outside the oracle of a property that shares those runs (ContextReset replaces
+// the context by definition, so C09's "subscription marker present" oracle does not apply to it).
+var extraOpSpecs []OpSpec
+
+// specOperator turns a `chain: true` (int -> int) entry into the real operator function
+// (used by kinds that hand operators to other library functions, e.g. the ee PipeN of kind=prom).
+func specOperator(spec *OpSpec, p []int, variant string, cbs []Cb) (intOp, error) {
+	if !spec.chain {
+		return nil, fmt.Errorf("%s: not an int->int operator", spec.name)
+	}
+	ap, err := spec.mk(p, variant, cbs)
+	if err != nil {
+		return nil, err
+	}
+	return func(src ro.Observable[int]) ro.Observable[int] {
+		out, ok := ap(src).obs.(ro.Observable[int])
+		if !ok {
+			return ro.Throw[int](fmt.Errorf("%s: not an int observable", spec.name))
+		}
+		return out
+	}, nil
+}
+
 func findOp(name string) *OpSpec {
 	for i := range opSpecs {
 		if opSpecs[i].name == name {
 			return &opSpecs[i]
+		}
+	}
+	for i := range extraOpSpecs {
+		if extraOpSpecs[i].name == name {
+			return &extraOpSpecs[i]
 		}
 	}
 	return nil
@@ -400,6 +444,8 @@ func cbChoices(kind, variant string) []string {
 		return []string{"add", "mad"}
 	case "key":
 		return []string{"mod2", "id", "sq"}
+	case "ctag": // ContextMap / ContextMapI: the projection adds marker t (plain) or t+index (i)
+		return []string{"ctag+t50", "ctag+t53"}
 	}
 	return nil
 }
